@@ -237,6 +237,33 @@ def run(chk):
         x = Expr(total, **kw).expand()
         roundtrip(chk, x, "roundtrip:grammar", f"grammar sum {case}",
                   spin_model=True if build.has_spin(adapter.Ctx()) else None)
+    # orbital-energy fractions: sums in which the same bracket occurs with
+    # different exponents, several brackets, numerator brackets
+    from . import c13
+    gf = gen.Gen(chk.seed + 9, spaces="ov")
+    for case in range(12 if quick else 150):
+        gf.new_expression(True)
+        targets = gf.targets(n=r.choice([0, 2]))
+        tsyms = [gen.sym_of(t) for t in targets]
+        try:
+            t1 = c13.fraction_term(gf, r, targets)
+        except RuntimeError:
+            continue
+        if t1 is None or t1 == 0:
+            continue
+        x1 = build.expand_mul(Expr(t1, real=True, target_idx=tsyms))
+        from sympy import Pow, Add as _Add
+        brs = [b for b in x1.sympy.atoms(Pow)
+               if b.exp.is_negative and isinstance(b.base, _Add)]
+        total = x1.sympy
+        if brs:
+            b0 = r.choice(sorted(brs, key=str))
+            # the same term with one more / one fewer power of one bracket
+            total = total + r.choice([1, -2]) * x1.sympy * \
+                Pow(b0.base, r.choice([-1, 1, -2]))
+        x = build.expand_mul(Expr(total, real=True, target_idx=tsyms))
+        roundtrip(chk, x, "roundtrip:fractions",
+                  f"fraction sum {case}: {str(x)[:120]}")
     names_roundtrips(chk, quick)
     chk.judge(chunk=200)
     return chk.finish(
